@@ -1,6 +1,6 @@
 /-
 C01 - tie of the first kind for the pure helpers of the header path: the functions below are
-TRANSLATED from blockmanager.go / headerlist/header_list.go on every run (Gen/Trans.lean) and proved
+TRANSLATED from blockmanager.go / headerlist/header_list.go on every run (Gen/TransBM.lean) and proved
 equal to the hand-model functions the C01 theorems are about, so that those theorems speak about the
 functions the code defines now.
 -/
@@ -8,7 +8,7 @@ import Neutrino.Props.C01
 import Neutrino.Lemmas.TransBlockMgr
 import Neutrino.Lemmas.TransHeaderList
 namespace Neutrino.BM
-open Neutrino.Gen.Trans
+open Neutrino.Gen.TransBM
 
 /-- **`(*blockManager).findNextHeaderCheckpoint`** (as the code spells it today) is the model's
 `findNextCp`, for every ascending checkpoint list with non-negative heights and every height ≥ 0. -/
